@@ -35,7 +35,9 @@ def c03(prop, tier):
     inp = {'property': prop, 'seed': SEED, 'lists': ['explicit', 'wildcard', 'empty', 'creator'],
            'routes': ['local', 'announce', 'exchange', 'manual', 'ancestor'],
            'classes': ['honest', 'nonwriter', 'copied-id', 'copied-identity-block', 'foreign-key-sig', 'foreign-type'],
-           'stores': ['kv', 'log', 'doc'] if thorough else ['kv']}
+           'stores': ['kv', 'log', 'doc']}
+    if not thorough:
+        inp['lists'] = ['explicit', 'wildcard', 'empty']
     res = vlib.run_vh('auth', inp, tag=prop, timeout=900 if not thorough else 3000)
 
     def payload(v):
@@ -59,7 +61,7 @@ def c04(prop, tier):
                'the library\'s own encoder and verifier (hash matches? signature verifies? same database?) and must not be merged '
                'when the specification says so; the genuine entry must still be accepted afterwards')
     model(ck)
-    inp = {'property': prop, 'seed': SEED, 'stores': ['kv', 'log', 'doc'] if thorough else ['kv']}
+    inp = {'property': prop, 'seed': SEED, 'stores': ['kv', 'log', 'doc']}
     res = vlib.run_vh('auth', inp, tag=prop, timeout=900 if not thorough else 3000)
 
     def payload(v):
